@@ -1284,18 +1284,13 @@ where
             ..
         } = if let ExprOrSpread { expr, spread: None } = setup_fn {
             match &**expr {
-                Expr::Arrow(arrow) => match arrow.params.get(1) {
-                    Some(Pat::Ident(ident)) => ident.type_ann.as_deref(),
-                    Some(Pat::Array(array)) => array.type_ann.as_deref(),
-                    Some(Pat::Object(object)) => object.type_ann.as_deref(),
-                    _ => return None,
-                },
-                Expr::Fn(fn_expr) => match fn_expr.function.params.get(1).map(|param| &param.pat) {
-                    Some(Pat::Ident(ident)) => ident.type_ann.as_deref(),
-                    Some(Pat::Array(array)) => array.type_ann.as_deref(),
-                    Some(Pat::Object(object)) => object.type_ann.as_deref(),
-                    _ => return None,
-                },
+                // (a context parameter with a default value keeps its annotation on the left)
+                Expr::Arrow(arrow) => arrow.params.get(1).and_then(extract_type_ann_from_pat),
+                Expr::Fn(fn_expr) => fn_expr
+                    .function
+                    .params
+                    .get(1)
+                    .and_then(|param| extract_type_ann_from_pat(&param.pat)),
                 _ => return None,
             }?
         } else {
